@@ -151,7 +151,7 @@ class MatchRealBody(Contract):
     inclusions are matched with self.follow, exclusions in follow mode; include-any / exclude-none."""
     module, qual, props = '_wcmatch', '_Match._match_real', ('C04', 'C06', 'C07')
     assumptions = ('os.path.isdir / os.stat tell the truth about the file system; _fs_match is abstract here (relation FS(regex, name, follow))',)
-    forking = ('os.stat',)
+    forking = ('os.stat', 'os.lstat')
 
     def inputs(self):
         self.n, self.m = z3.Int('n_include'), z3.Int('n_exclude')
@@ -189,8 +189,12 @@ class MatchRealBody(Contract):
                        z3.And(pyvc.eq(filename, st.env['filename']), pyvc.eq(root, st.env['root']), pyvc.eq(dir_fd, st.env['dir_fd']),
                               pyvc.eq(symlinks, st.env['symlinks'])), node)
             return U('FS', pattern, filename, Bool(pyvc.truthy(follow)), ret='bool')
+        def h_lstat(eng, node, st, args):
+            # whether the name denotes a directory is asked of the TARGET (a symlink to a directory is a directory for glob): stat, never lstat
+            eng.oblige('_Match._match_real.directory-ness_is_decided_by_stat_(following_a_final_symlink)_never_lstat', st, z3.BoolVal(False), node)
+            return h_stat(eng, node, st, args)
         hooks = dict(FL.PLATFORM_HOOKS)
-        hooks.update({'isinstance': h_isinstance, 'os.stat': h_stat, 'self._fs_match': h_fs})
+        hooks.update({'isinstance': h_isinstance, 'os.stat': h_stat, 'os.lstat': h_lstat, 'self._fs_match': h_fs})
         return hooks
 
     def fname_term(self, st):
